@@ -1,19 +1,21 @@
 ---------------------------- MODULE Trace_Value ----------------------------
 (***************************************************************************)
 (* Trace validation of recorded executions of the REAL generated code      *)
-(* against the run-time layer (binding B1/B2 of DESIGN.md).                *)
+(* against the run-time layer (bindings B1/B2 of DESIGN.md).               *)
 (*                                                                         *)
 (* The trace (IOEnv.TRACE, ndjson) is a sequence of events; one event is   *)
-(* the record of one driver batch: a declaration id, an entry point, the   *)
-(* environment observations the specification does not own (std's string   *)
-(* primitives on the strings that occurred), and parallel sequences of     *)
-(* inputs and observed outcomes.  IOEnv.DECLS is the declaration table.    *)
+(* the record of one driver batch: a declaration id, an entry point or     *)
+(* observer name, and parallel sequences of inputs, observed outcomes and  *)
+(* (for strings) the environment observations the specification does not  *)
+(* own: std's string primitives on the strings that occurred.              *)
+(* IOEnv.DECLS is the declaration table.                                   *)
 (*                                                                         *)
 (* Each step consumes one event and judges every (input, outcome) pair:    *)
-(*   - against the DECLARATIVE DeclCall: a mismatch is reported as BAD     *)
-(*     (the harness turns it into VIOLATION / KNOWN-FINDING);              *)
-(*   - against the OPERATIONAL OpCall: a mismatch that is not BAD is       *)
-(*     reported as DRIFT (model no longer transcribes the code).           *)
+(*   - against the DECLARATIVE statements (DeclCall, Canonical, Transparent*)
+(*     ...): a mismatch is reported as BAD (the harness turns it into      *)
+(*     VIOLATION / KNOWN-FINDING);                                         *)
+(*   - call events also against the OPERATIONAL OpCall: a mismatch that is *)
+(*     not BAD is reported as DRIFT (model no longer transcribes the code).*)
 (* The step never blocks, so the rest of the trace is always examined.     *)
 (*                                                                         *)
 (* State carried along the trace: the NaN policy inferred so far.  The     *)
@@ -21,6 +23,19 @@
 (* follow ONE policy per bound kind at every entry point, and the trace    *)
 (* spec infers it: the first observation that pins a kind fixes it, any    *)
 (* later observation that needs the opposite is BAD.                       *)
+(*                                                                         *)
+(* Event kinds (field ep):                                                 *)
+(*   entry points  try_new new try_from from try_from_ref from_ref         *)
+(*                 from_str_s default parse deser        -> DeclCall       *)
+(*   canon         the constructor applied to a stored value: DeclCall and,*)
+(*                 for built-in guards, the result is that same value (C11)*)
+(*   views         AsRef/Deref/Borrow/Into/Clone/Display of a stored value *)
+(*                 next to the inner value's own answers (C13)             *)
+(*   cmp           ==, partial_cmp, cmp, hash of two stored values next to *)
+(*                 the inner values' answers; rank order for floats        *)
+(*                 (C12, C13)                                              *)
+(*   ser           serialization of a stored value next to the inner       *)
+(*                 value's / a serde-derived newtype's encoding (C10)      *)
 (***************************************************************************)
 EXTENDS NutypeValue, Json, IOUtils, TLCExt
 
@@ -46,47 +61,110 @@ TracePrim(n, x, env) ==
 Policies == [BoundKinds -> BOOLEAN]
 Compatible(nv, p) == \A k \in BoundKinds : (p[k] = "pass" => ~nv[k]) /\ (p[k] = "viol" => nv[k])
 
+\* per-pair environment observation (string family only)
+EnvOf(e, i) == IF e.envs = <<>> THEN <<>> ELSE e.envs[i]
+
+CallEps == DirectEps \cup {"default", "parse", "deser", "canon"}
+BaseEp(d, ep) == IF ep = "canon" THEN CtorName(d) ELSE ep
+
 \* does judging this pair depend on the NaN policy?
 NanMatters(d, inp, env) ==
   /\ d.fam = "float" /\ d.vmode = "std" /\ inp.ok
   /\ LET s == SanAll(d, IF inp.v = <<>> THEN d.dflt[1] ELSE inp.v[1], env) IN
      \E i \in DOMAIN d.val : NanInvolved(d.fam, d.val[i], s)
 
-\* per-pair environment observation (string family only)
-EnvOf(e, i) == IF e.envs = <<>> THEN <<>> ELSE e.envs[i]
+\* C11: stored values are fixed points of the guarded constructor
+CanonOK(d, e, i) ==
+  (e.ep = "canon" /\ Builtin(d)) => e.outs[i] = OkOut(e.ins[i].v[1])
+
+\* ---- observers (no NaN policy involved) -------------------------------------
+
+\* every present field of `o` listed in `fields` holds <<x>> with x = v
+AllShow(o, fields, v) == \A f \in fields : (f \in DOMAIN o) => (o[f] = <<>> \/ o[f] = <<v>>)
+
+ViewsOK(d, v, o) ==
+  /\ AllShow(o, {"into_inner", "as_ref", "deref", "borrow", "borrow2", "into", "clone", "iter", "iter_ref"}, v)
+  /\ ("disp" \in DOMAIN o => \A j \in DOMAIN o.disp : o.disp[j][1] = o.disp[j][2])   \* <<newtype text, inner text>> per format spec
+  /\ ("ptr" \in DOMAIN o => \A j \in DOMAIN o.ptr : o.ptr[j])                         \* views point into the wrapper
+
+\* IEEE / integer comparison of two model values
+CmpOf(fam, a, b) ==
+  IF fam = "float"
+  THEN (IF IsNaN(a) \/ IsNaN(b) THEN "None" ELSE IF a.r < b.r THEN "Less" ELSE IF a.r > b.r THEN "Greater" ELSE "Equal")
+  ELSE IF fam = "int" THEN (IF a < b THEN "Less" ELSE IF a > b THEN "Greater" ELSE "Equal")
+  ELSE "?"
+
+CmpOK(d, a, b, o) ==
+  \* transparency (C13): the newtype's answers are the inner values' answers
+  /\ ("eq" \in DOMAIN o => o.eq = o.ieq)
+  /\ ("pcmp" \in DOMAIN o => o.pcmp = o.ipcmp)
+  /\ ("cmp" \in DOMAIN o => (o.cmp = o.ipcmp /\ o.cmp # "panic" /\ o.cmp # "None"))
+  /\ ("hash" \in DOMAIN o => \A j \in DOMAIN o.hash : o.hash[j])
+  \* the environment's answers are what the model says about these values (C12: rank order)
+  /\ (d.fam \in {"int", "float"} =>
+        /\ ("pcmp" \in DOMAIN o => o.ipcmp = CmpOf(d.fam, a, b))
+        /\ ("eq" \in DOMAIN o => o.ieq = (CmpOf(d.fam, a, b) = "Equal")))
+  \* lawful Eq: reflexive on obtainable values
+  /\ (("eq" \in DOMAIN o /\ NInSeq("Eq", d.traits) /\ a = b) => o.eq)
+
+\* C10: the serialization is the serde-newtype encoding of the inner value
+SerOK(d, v, o) ==
+  /\ o.same          \* bytes equal the reference encoding (inner value for JSON/MessagePack, serde newtype for RON)
+  /\ o.k = "ok"
+
+ObsBad(d, e, i) ==
+  CASE e.ep = "views" -> ~ViewsOK(d, e.ins[i].v[1], e.outs[i])
+    [] e.ep = "cmp"   -> ~CmpOK(d, e.ins[i].v[1], e.ins[i].v[2], e.outs[i])
+    [] e.ep = "ser"   -> ~SerOK(d, e.ins[i].v[1], e.outs[i])
+    [] OTHER          -> Assert(FALSE, <<"unknown event kind", e.ep>>)
 
 TraceInit == l = 1 /\ pol = [k \in BoundKinds |-> "?"] /\ nbad = 0 /\ ndrift = 0 /\ npairs = 0
 
+StepCall(e, d) ==
+  LET N   == DOMAIN e.ins
+      bep == BaseEp(d, e.ep)
+      nanI == {i \in N : NanMatters(d, e.ins[i], EnvOf(e, i))}
+      plain == N \ nanI
+      anyNv == CodeNanPolicy
+      badPlain == {i \in plain : e.outs[i] # DeclCall(d, bep, e.ins[i], EnvOf(e, i), anyNv) \/ ~CanonOK(d, e, i)}
+      cands == IF nanI = {} THEN {anyNv}
+               ELSE {nv \in Policies : Compatible(nv, pol) /\
+                       \A i \in nanI : e.outs[i] = DeclCall(d, bep, e.ins[i], EnvOf(e, i), nv)}
+      badNan == IF cands = {} THEN nanI ELSE {i \in nanI : ~CanonOK(d, e, i)}
+      bad == badPlain \cup badNan
+      drift == {i \in N \ bad : e.outs[i] # OpCall(d, bep, e.ins[i], EnvOf(e, i))}
+  IN
+    /\ \A i \in bad :
+         PrintT(<<"BAD", l, i, ToJson([d |-> e.d, ep |-> e.ep, inp |-> e.ins[i], got |-> e.outs[i],
+                   want |-> DeclCall(d, bep, e.ins[i], EnvOf(e, i), anyNv),
+                   nan |-> (i \in nanI)])>>)
+    /\ \A i \in drift :
+         PrintT(<<"DRIFT", l, i, ToJson([d |-> e.d, ep |-> e.ep, inp |-> e.ins[i], got |-> e.outs[i],
+                   model |-> OpCall(d, bep, e.ins[i], EnvOf(e, i))])>>)
+    /\ nbad' = nbad + Cardinality(bad)
+    /\ ndrift' = ndrift + Cardinality(drift)
+    /\ npairs' = npairs + Cardinality(N)
+    /\ pol' = IF nanI = {} \/ cands = {} THEN pol
+              ELSE [k \in BoundKinds |->
+                      IF \A nv \in cands : nv[k] THEN "viol"
+                      ELSE IF \A nv \in cands : ~nv[k] THEN "pass" ELSE pol[k]]
+
+StepObs(e, d) ==
+  LET N == DOMAIN e.ins
+      bad == {i \in N : ObsBad(d, e, i)}
+  IN
+    /\ \A i \in bad :
+         PrintT(<<"BAD", l, i, ToJson([d |-> e.d, ep |-> e.ep, inp |-> e.ins[i], got |-> e.outs[i],
+                   want |-> NoneOut, nan |-> FALSE])>>)
+    /\ nbad' = nbad + Cardinality(bad)
+    /\ npairs' = npairs + Cardinality(N)
+    /\ UNCHANGED <<ndrift, pol>>
+
 Step ==
   /\ l <= Len(Rec)
-  /\ LET e   == Rec[l]
-         d   == Decls[e.d]
-         N   == DOMAIN e.ins
-         nanI == {i \in N : NanMatters(d, e.ins[i], EnvOf(e, i))}
-         plain == N \ nanI
-         anyNv == CodeNanPolicy
-         badPlain == {i \in plain : e.outs[i] # DeclCall(d, e.ep, e.ins[i], EnvOf(e, i), anyNv)}
-         cands == IF nanI = {} THEN {anyNv}
-                  ELSE {nv \in Policies : Compatible(nv, pol) /\
-                          \A i \in nanI : e.outs[i] = DeclCall(d, e.ep, e.ins[i], EnvOf(e, i), nv)}
-         badNan == IF cands = {} THEN nanI ELSE {}
-         bad == badPlain \cup badNan
-         drift == {i \in N \ bad : e.outs[i] # OpCall(d, e.ep, e.ins[i], EnvOf(e, i))}
-     IN
-       /\ \A i \in bad :
-            PrintT(<<"BAD", l, i, ToJson([d |-> e.d, ep |-> e.ep, inp |-> e.ins[i], got |-> e.outs[i],
-                      want |-> DeclCall(d, e.ep, e.ins[i], EnvOf(e, i), anyNv),
-                      nan |-> (i \in nanI)])>>)
-       /\ \A i \in drift :
-            PrintT(<<"DRIFT", l, i, ToJson([d |-> e.d, ep |-> e.ep, inp |-> e.ins[i], got |-> e.outs[i],
-                      model |-> OpCall(d, e.ep, e.ins[i], EnvOf(e, i))])>>)
-       /\ nbad' = nbad + Cardinality(bad)
-       /\ ndrift' = ndrift + Cardinality(drift)
-       /\ npairs' = npairs + Cardinality(N)
-       /\ pol' = IF nanI = {} \/ cands = {} THEN pol
-                 ELSE [k \in BoundKinds |->
-                         IF \A nv \in cands : nv[k] THEN "viol"
-                         ELSE IF \A nv \in cands : ~nv[k] THEN "pass" ELSE pol[k]]
+  /\ LET e == Rec[l]
+         d == Decls[e.d]
+     IN IF e.ep \in CallEps THEN StepCall(e, d) ELSE StepObs(e, d)
   /\ l' = l + 1
 
 TraceSpec == TraceInit /\ [][Step]_tvars
